@@ -2,6 +2,7 @@
 '''
 from abc import ABC, abstractmethod
 import cbor2
+import io
 import copy
 from dataclasses import dataclass, field
 import datetime
@@ -368,7 +369,11 @@ class CoseSecOpCtx:
         msg_enc = result.getfieldval('value')
         if not isinstance(msg_enc, bytes):
             raise ValueError('Result value is not a byte string')
-        msg_dec = cbor2.loads(msg_enc)
+        with io.BytesIO(msg_enc) as buf:
+            msg_dec = cbor2.load(buf)
+            if buf.tell() != len(msg_enc):
+                # loads() would ignore what follows the item
+                raise ValueError('Extra data after the COSE message')
         LOGGER.debug('Received COSE message\n%s', encode_diagnostic(msg_dec))
         msg_dec[2] = self.tgt_blk.getfieldval('btsd')
 
